@@ -82,7 +82,14 @@ func floatClass(r *rng.R, prev uint64) uint64 {
 	return r.U64()
 }
 
-func intClass(r *rng.R, prev uint64) uint64 {
+var lastDelta uint64 // delta between the two previous intClass values (for boundary deltas of deltas)
+
+func intClass(r *rng.R, prev uint64) (v uint64) {
+	defer func() { lastDelta = v - prev }()
+	if r.Chance(1, 6) {
+		// next delta = last delta + a boundary value: the delta of delta is exactly that boundary
+		return prev + lastDelta + uint64(dodBoundaries[r.Intn(len(dodBoundaries))])
+	}
 	switch r.Intn(8) {
 	case 0:
 		return prev
@@ -102,7 +109,21 @@ func intClass(r *rng.R, prev uint64) uint64 {
 	return r.U64()
 }
 
-var strPool = [][]byte{{}, {'a'}, {'a', 'b'}, []byte("hello"), []byte("hello world, a longer string value"), {0, 0}, {0xff}}
+var strPool = func() [][]byte {
+	p := [][]byte{{}, {'a'}, {'a', 'b'}, []byte("hello"), []byte("hello world, a longer string value"), {0, 0}, {0xff}}
+	// lengths at the boundaries of the 1-, 2- and 3-byte zig-zag varint length prefix
+	for _, n := range []int{63, 64, 65, 8191, 8192, 8193} {
+		b := make([]byte, n)
+		for i := range b {
+			b[i] = byte('a' + i%26)
+		}
+		p = append(p, b)
+	}
+	return p
+}()
+
+// deltas of deltas at the boundaries of the 1- and 2-byte zig-zag varint
+var dodBoundaries = []int64{63, 64, 65, -64, -65, 8191, 8192, -8192, -8193, 1<<20 - 1, 1 << 20}
 
 func strClass(r *rng.R) []byte {
 	if r.Chance(2, 3) {
